@@ -13,7 +13,7 @@ CHECKS = {
         "structural monitor on the export: shadow reader following the Rust binding's attribute table (parsed from python.rs at check time) + region / port / link-name / symbol / constant / order-hint / metadata checker against the HUGR",
         "1500 (quick) / 50000 (thorough) module-rooted builder programs (calls incl. repeated and polymorphic, constants incl. function values, "
         "order edges, nested conditionals / loops / CFGs, metadata) are exported with to_model(); the tree is read through exactly the "
-        "attributes python.rs reads (and the model dataclasses are compared with that table and the constructor argument order); regions "
+        "attributes python.rs reads (and the model dataclasses are compared with that table, the constructor argument order and the RegionKind names / values the binding uses); regions "
         "must mirror the hierarchy, nodes list exactly their signature's value/control ports, two listed ports share a link name iff an "
         "edge joins them with the (1,n)/(n,1) hyperedge rule, applied function symbols must be the callee's, loaded constants must be "
         "inlined (the inlined term is compared with a table written from hugr-core's export_value; bodies of function constants are checked as regions of their own), every sibling order edge must appear as a hint with matching keys, metadata must be carried over, and each node's signature "
@@ -37,7 +37,8 @@ CHECKS = {
         "800 (quick) / 25000 (thorough) HUGRs from builder programs (plus metadata, extra order links and mutation histories) are rendered under "
         "2-6 of the 6 (palette x qualify_op_name) configurations; the DOT text is parsed and must contain exactly one node statement per node "
         "with the op's display name and one cell per input/output port, one cluster per parent nested as the hierarchy, one edge statement per "
-        "link with the right endpoints, value edges labelled str(type); the HUGR must be unchanged and the structure config-independent.",
+        "link with the right endpoints, value edges labelled str(type); the HUGR must be unchanged and the structure config-independent; "
+        "a renderer object that has already drawn another HUGR must produce the source a fresh one produces; render_dot() without a configuration and the repository-test corpus are included.",
         "Trusted: the DOT subset parser (self-tested), display names taken from op.name()/op_def().name as the renderer documents. No layout "
         "(no dot binary). One open known finding on qualified names.",
         "DESIGN.md §3 C20",
@@ -58,7 +59,8 @@ CHECKS = {
         "5000 (quick) / 150000 (thorough) scripts over track_wire / track_wires / track_inputs / untrack_wire / add / extend / "
         "set_indexed_outputs / set_tracked_outputs with mixed integer and wire arguments (1-3 qubit ops, measure, copyable fan-out, ops whose "
         "argument position differs from the rebinding port) on circuits of width 1-6: `tracked` must equal the model after every step, "
-        "IndexError must be raised exactly for untracked indices, and the resulting HUGR must equal the explicitly wired one incl. metadata.",
+        "IndexError must be raised exactly for untracked indices, and the resulting HUGR must equal the explicitly wired one incl. metadata. "
+        "Whole command groups go through ONE extend(...) call, Command objects are added a second time, track_inputs is also left to its default.",
         "Trusted: the 30-line tracking model in vf/props/c15.py. Negative indices not exercised.",
         "DESIGN.md §3 C15",
     ),
@@ -89,7 +91,8 @@ CHECKS = {
         "with misc JSON, typed values, semver with pre-release/build parts) are serialized, compared field by field with the descriptor, "
         "reloaded and compared again; every OpDef must report its holder as owner and carry the holder in its runtime requirements. Every file "
         "under specification/std_extensions must be byte-identical to the bundled copy, load and round-trip; each typed helper must denote a "
-        "definition present in those files with fitting arguments (and, for ops, the instantiated signature).",
+        "definition present in those files with fitting arguments (and, for ops, the instantiated signature). The owner / requirement "
+        "invariant is re-checked for a successor extension that takes over every op definition of the generated one.",
         "Trusted: vf/gen/extensions.py, wire arg_fits/subst. runtime_reqs lists compared as sets. lower_funcs excluded (as in the property).",
         "DESIGN.md §3 C10",
     ),
@@ -111,7 +114,8 @@ CHECKS = {
         "writer that follows hugr-core's conventions (null offsets for order edges, metadata holes, respelled sums/tuples, omitted defaults) "
         "plus the repo's own live-version sample documents are schema-validated, loaded and re-saved and compared under a canonicaliser. Every "
         "type / parameter / argument / value case additionally travels through Hugr.to_json -> load_json inside a module-level op, and decoded "
-        "values are compared attribute by attribute with an opaque-mode rebuild.",
+        "values are compared attribute by attribute with an opaque-mode rebuild; every operation's document and every value's payload is compared "
+        "with an expectation computed from the descriptor alone (symmetric encode/decode faults); loaded foreign documents are also compared in memory (links()).",
         "Trusted: vf/gen/types.py wire forms, the canonicaliser in c05_foreign.py, the published schema. CF edges are always written with explicit "
         "offsets (a null CF offset is ambiguous in the reference reader).",
         "DESIGN.md §3 C05",
@@ -131,7 +135,8 @@ CHECKS = {
         "For every generated HUGR (four strata: programs, programs+mutation history, history-only with holes and index reuse, planted "
         "attribute-rich ops) load_json(to_json(h)) must succeed, re-serialize to the same JSON value path by path, and show the same encoded "
         "op, hierarchy with child order, metadata and link multiset on every port (order links included) under order-preserving renumbering; "
-        "a second round trip must be a fixed point.",
+        "a second round trip must be a fixed point; serializing twice gives the same text and leaves the HUGR unchanged. The HUGR "
+        "documents of the repository's own tests (captured through the HUGR_BIN shim) are a fifth stratum.",
         "Trusted: vf/oracles/observe.py. Histories only attach links to ports the ops have. Two index-reuse mechanisms are open known findings "
         "(known_findings.json) and are reported as KNOWN-FINDING; strata without index reuse keep full sensitivity.",
         "DESIGN.md §3 C02",
@@ -190,7 +195,8 @@ CHECKS = {
         "reference-model monitor (replay entries in order) on generated shots / multi-shot results",
         "Every generated shot and multi-shot result (interleaved indexed/whole writes, bools, non-bits, look-alike tags, "
         "all strict-flag combinations, nested lists for collation) is run through the real QsysShot/QsysResult and the outcome "
-        "(value or ValueError) is compared with a 40-line replay model of the documented convention.",
+        "(value or ValueError) is compared with a 40-line replay model of the documented convention; one result object is also asked "
+        "several times with changing options and must answer like a fresh one.",
         "Trusted: the replay model. Not covered: tags ending in newline, floats 0.0/1.0, key order of result dicts, to_pytket.",
         "DESIGN.md §3 C19",
     ),
